@@ -226,6 +226,24 @@ CHECKS.update({
              'returned set is observed, not modelled.'),
 })
 
+CHECKS.update({
+    'C15': dict(
+        cat='other', ref='5/C15',
+        technique='Lean 4: specification of fair paths / CGP fair semantics, theorem fairStatesSpec_exact for the corrected '
+                  'computation, machine-checked refutations of the property for the implemented behaviour (KF_a, KF_b by '
+                  'decide on witnesses, KF_c, KF_d universally quantified) + differential run against an AS-IMPLEMENTED '
+                  'Lean model + direct checks of the clauses that do hold; known findings KF-C15-a..d',
+        text='The property does not hold on this tree (four recorded defects of the fairness pipeline; repairing them '
+             'is incompatible with the pinned suite, DESIGN.md 1.1). Proved: the corrected fair-state computation is '
+             'exact w.r.t. the fair-path specification; F=[] coincides with the unconstrained semantics in the spec; the '
+             'implemented get_fair_states / fair EG / LTL+F / CTL E R+F deviate (witnesses, two of them for every input). '
+             'The check requires the implementation to equal the as-implemented model (get_fair_states under every '
+             'insertion order; three modelcheck entry points with F), reports any deviation that does not land on the '
+             'specification as a new violation, checks directly that K is never modified, F=None equals no F and only '
+             'TypeError is raised, and prints one KNOWN-FINDING line per finding whose witness still fails.',
+        note=TB + 'Level other: refutation + behavioural pinning, not a proof that the property holds.'),
+})
+
 NOT_YET = {
     'C07': 'check under construction in this session',
     'C08': 'check under construction in this session (class-table translator)',
